@@ -444,7 +444,7 @@ def prove_scenario(scn, *, seed=0, crosscheck=2, max_paths=4000, timeout_ms=1000
                     if not _close(float(a), float(b), 1e-7, 1e-9):
                         raise RuntimeError("cross-check %s: claim proved symbolically but numerically false at %s: %r vs %r" % (cs[1], env, a, b))
                 xchecks += 1
-    return Result(backend="nf" + ("+z3" if n_smt else ""), paths=len(results), identities=n_ident,
+    return Result(backend="nf" + ("+z3" if n_smt else ""), paths=len(results), paths_outside_domain=ex.infeasible_paths, identities=n_ident,
                   smt_goals=n_smt, crosschecks=xchecks, statement="; ".join(statements)[:600],
                   side_conditions=len(nf.SIDE), constant_residuals_below_1e_12=const_slack[0],
                   **({"raised": raised_notes[0]} if raised_notes else {}))
